@@ -93,7 +93,9 @@ def _ext_one(item):
             ctor = {"in": h.Input, "out": h.Output, "inout": h.Inout, "none": h.Port}[d]
             ports.append(ctor(name=f"p{k}", width=1 + (k % 2)))
         e = h.ExternalModule(name="E", port_list=ports, paramtype=dict, domain="extdom", desc="an external module", spicetype=getattr(SpiceType, st))
-        params = {"none": {}, "ints": dict(a=1, b=-5), "mixed": dict(a=1, s="txt", f=1.5, p=3 * h.prefix.n, l=h.Literal("w*2"))}[pstyle]
+        params = {"none": {}, "ints": dict(a=1, b=-5), "mixed": dict(a=1, s="txt", f=1.5, p=3 * h.prefix.n, l=h.Literal("w*2")),
+                  # floats with whole values stay floats; zero, False-like and large values
+                  "wholefloats": dict(f2=2.0, fm=-2.0, f0=0.0, big=1e19, i0=0, e="")}[pstyle]
         m = h.Module(name="T")
         conns = {p.name: m.add(h.Signal(name="s_" + p.name, width=p.width)) for p in ports}
         m.add(h.Instance(name="x", of=e(params))(**conns))
@@ -154,7 +156,7 @@ def run(ctx):
     eitems = []
     for st in ("SUBCKT", "RESISTOR", "CAPACITOR", "INDUCTOR", "MOS", "DIODE", "BIPOLAR", "VSOURCE", "ISOURCE", "VCVS", "VCCS", "CCCS", "CCVS", "TLINE"):
         for dirs in (("none", "none"), ("in", "out", "inout"), ("out", "none", "in", "inout")):
-            for pstyle in ("none", "ints", "mixed"):
+            for pstyle in ("none", "ints", "mixed", "wholefloats"):
                 for lits in ((), ("lit one", "lit two")):
                     eitems.append((st, dirs, pstyle, lits))
     for it in eitems:
